@@ -216,9 +216,22 @@ class Worker:
         self.dtname = {np.dtype(v): k for k, v in self.dt.items()}
 
     # ---- abstract -> real ------------------------------------------------------------------------------------
-    def real(self, t, ty=None, np_scalar=False):
+    ARRAY_CODES = {"u8": "B", "i8": "b", "u16": "H", "i16": "h", "u32": "I", "i32": "i", "u64": "Q", "i64": "q", "f32": "f", "f64": "d"}
+
+    def real(self, t, ty=None, np_scalar=False, fl=None):
+        """fl (flavour of the top-level value): 'tuple' for a list; 'mv' (memoryview) / 'arr' (array.array) for an ndarray."""
         np = self.np
         k = t[0]
+        if fl == "tuple" and k == "l":
+            return tuple(self.real(t, ty))
+        if fl in ("mv", "arr") and k == "a" and t[1] != "O":
+            a = self.real(t, ty)
+            if fl == "arr" and t[1] in self.ARRAY_CODES:
+                import array
+                return array.array(self.ARRAY_CODES[t[1]], a.tolist())
+            return memoryview(a)
+        if k == "o" and t[1] == 999999:
+            return (i for i in range(3))   # a foreign object: a generator
         if k == "N":
             return None
         if k == "b":
@@ -343,7 +356,7 @@ class Worker:
             f = c["fields"][case["f"]]
             name = c["py"][case["f"]]
             o = cls()
-            x = self.real(parse(case["x"]), f["ty"], case.get("nps", False))
+            x = self.real(parse(case["x"]), f["ty"], case.get("nps", False), case.get("fl"))
             r, _, m = self.attempt(lambda: setattr(o, name, x))
             return {"r": r, "m": m, "v": self.enc(getattr(o, name)), "o": self.enc(o)}
         if k == "ops":
@@ -370,6 +383,19 @@ class Worker:
             src = self.real(parse(case["s"]), ty)
             r, v, m = self.attempt(lambda: ns.update_from_builtin(d, src))
             return {"r": r, "m": m, "v": self.enc(v) if r == "ok" else "", "same": v is d}
+        if k == "alias":
+            import importlib
+            mod = importlib.import_module(case["mod"])
+            out = {}
+            for a in case["aliases"]:
+                obj = getattr(mod, a, None)
+                if obj is None:
+                    out[a] = None
+                    continue
+                m = obj._MODEL_
+                out[a] = {"name": m.full_name, "major": m.version.major, "minor": m.version.minor, "cls": obj.__name__,
+                          "same_as_versioned": obj is getattr(mod, f"{a}_{m.version.minor}", None)}
+            return {"aliases": out, "others": sorted(n for n in vars(mod) if not n.startswith("_") and isinstance(getattr(mod, n), type))}
         if k == "snan":
             # a float32/float16 array holding signalling NaNs (enters through the zero-copy ndarray branch)
             np = self.np
@@ -390,11 +416,14 @@ class Worker:
                 out["get_model_instance_is"] = ns.get_model(cls()) is cls._MODEL_
                 r, v, m = self.attempt(lambda: ns.get_class(cls._MODEL_) is cls)
                 out["get_class"] = v if r == "ok" else m
+                out["module"] = cls.__module__
                 out["constants"] = {n: self.enc(ns.get_attribute(cls, n)) for n in case["constants"]}
                 out["is_serializable"] = ns.is_serializable(cls)
                 out["repr_default"] = repr(cls())[:200]
             else:
                 out["is_service"] = ns.is_service_type(cls)
+                r, v, m = self.attempt(lambda: ns.get_class(cls._MODEL_) is cls)
+                out["get_class"] = v if r == "ok" else m
             return out
         raise ValueError(k)
 
@@ -471,6 +500,7 @@ class Schema:
             self.ids[k] = cid
             name = f"{m.short_name}_{m.version.major}_{m.version.minor}"
             self.classes.append({"id": cid, "kind": "service", "mod": ".".join(m.name_components[:-1] + [name]), "path": [name],
+                                 "ns": list(m.name_components[:-1]), "modname": name,
                                  "union": False, "fields": [], "full": m.full_name})
             self.models[cid] = m
             for sub in (m.request_type, m.response_type):
@@ -484,11 +514,12 @@ class Schema:
         if m.has_parent_service:
             p = parent
             name = f"{p.short_name}_{p.version.major}_{p.version.minor}"
-            mod, path = ".".join(p.name_components[:-1] + [name]), [name, m.short_name]
+            mod, path, nsc = ".".join(p.name_components[:-1] + [name]), [name, m.short_name], list(p.name_components[:-1])
         else:
             name = f"{m.short_name}_{m.version.major}_{m.version.minor}"
-            mod, path = ".".join(m.name_components[:-1] + [name]), [name]
-        self.classes.append({"id": cid, "kind": "data", "mod": mod, "path": path, "union": isinstance(m.inner_type, pydsdl.UnionType),
+            mod, path, nsc = ".".join(m.name_components[:-1] + [name]), [name], list(m.name_components[:-1])
+        self.classes.append({"id": cid, "kind": "data", "mod": mod, "path": path, "ns": nsc, "modname": name,
+                             "union": isinstance(m.inner_type, pydsdl.UnionType),
                              "fields": fields, "full": f"{m.full_name}.{m.version.major}.{m.version.minor}"})
         self.models[cid] = m
         return cid
@@ -509,6 +540,25 @@ class Schema:
         if isinstance(t, pydsdl.CompositeType):
             return {"k": "C", "c": self.ensure(t)}
         raise ValueError(f"cannot express {t!r}")
+
+    def resolve_modules(self, out):
+        """Find each class's module in the generated tree (the generator suffixes reserved names with '_');
+        independent of get_class.  Returns the dotted paths of all generated packages."""
+        for c in self.classes:
+            d, comps = pathlib.Path(out), []
+            for comp in c["ns"]:
+                pick = comp if (d / comp).is_dir() else comp + "_" if (d / (comp + "_")).is_dir() else None
+                if pick is None:
+                    raise FileNotFoundError(f"no package for namespace component {comp!r} of {c['full']} under {d}")
+                comps.append(pick)
+                d = d / pick
+            c["pkg"] = comps
+            c["mod"] = ".".join(comps + [c["modname"]])
+        pk = []
+        for f in sorted(pathlib.Path(out).rglob("__init__.py")):
+            pk.append(".".join(f.parent.relative_to(out).parts))
+        self.packages = pk
+        return pk
 
     def data_classes(self):
         return [c for c in self.classes if c["kind"] == "data"]
@@ -585,6 +635,11 @@ class NS:
         p = subprocess.run([common.PY, "-m", "nunavut", "--allow-unregulated-fixed-port-id", "--target-language", "py",
                             "--outdir", str(self.out), str(root)], capture_output=True, text=True, env=env, timeout=900)
         self.gen_error = None if p.returncode == 0 else (p.stderr or p.stdout)[-1500:]
+        if self.gen_error is None:
+            try:
+                self.schema.resolve_modules(self.out)
+            except FileNotFoundError as e:
+                self.gen_error = str(e)
 
     def run_worker(self, ctx, npdir, cases, tag):
         inp, outp = self.dir / f"cases_{tag}.json", self.dir / f"results_{tag}.json"
@@ -663,6 +718,8 @@ def _rand_int(rng, lo, hi):
 
 
 PRINTABLE = [c for c in range(128) if 32 <= c <= 126 or 9 <= c <= 13]
+ALL_DT = ["b", "u8", "u16", "u32", "u64", "i8", "i16", "i32", "i64", "f16", "f32", "f64"]
+FOREIGN = "o 999999 0"   # an object of no generated class (realised as a generator)
 
 
 class Gen:
@@ -745,7 +802,7 @@ class Gen:
                 fl += [hi + 0.5, lo - 0.5, hi + 1.5]
             out += [tf(x) for x in fl] + ["inf 0", "inf 1", "nan", "N"]
             out += [ts(b"12"), ts(b"x"), ts(b""), ts(b"+5"), ts(b"-1"), ts(b"99999999999999999999"), ts(b"0"), tyb(False, b"7"), tyb(True, b"q"),
-                    tl([ti(1)]), tl([]), obj]
+                    tl([ti(1)]), tl([]), obj, FOREIGN, (tl([ti(1)]), "tuple")]
             return out
         if k == "F":
             w, mx = ty["w"], ty["max"]
@@ -755,14 +812,14 @@ class Gen:
                 out += [tf(x) for x in (math.nextafter(fm, math.inf), -math.nextafter(fm, math.inf), fm * 2, 1e300, -1e300, fm + fm / 2 ** (11 if w == 16 else 24))]
             out += [ti(v) for v in (0, 1, -3, mx, -mx, mx + 1, -(mx + 1), 2 * mx, 2 ** 128, 2 ** 128 - 2 ** 103, 2 ** 128 - 2 ** 103 - 1, 65519, 65520,
                                     2 ** 100 + 2 ** 76 + 1, 10 ** 400, -10 ** 400, 2 ** 1024, 2 ** 1024 - 2 ** 970, 2 ** 1024 - 2 ** 970 - 1)]
-            out += ["inf 0", "inf 1", "nan", tb(True), tb(False), "N", ts(b"x"), ts(b"12"), ts(b""), ts(b"-7"), tyb(False, b"3"), tl([]), tl([tf(1.0)]), obj]
+            out += ["inf 0", "inf 1", "nan", tb(True), tb(False), "N", ts(b"x"), ts(b"12"), ts(b""), ts(b"-7"), tyb(False, b"3"), tl([]), tl([tf(1.0)]), obj, FOREIGN, (tl([]), "tuple")]
             return out
         if k == "B":
             return ["N", tb(False), tb(True), ti(0), ti(5), ti(-1), tf(0.0), tf(-0.0), tf(0.1), "nan", "inf 1", ts(b""), ts(b"x"), ts(b"0"),
-                    tyb(False, b""), tyb(True, b"z"), tl([]), tl([ti(0)]), obj, td(False, []), td(True, [])]
+                    tyb(False, b""), tyb(True, b"z"), tl([]), tl([ti(0)]), obj, td(False, []), td(True, []), FOREIGN, (tl([]), "tuple"), (tl([ti(0)]), "tuple")]
         if k == "C":
             right = [self.stored(ty) for _ in range(2)]
-            return right + [self.other_obj(ty["c"]), "N", ti(5), ts(b"x"), tl([]), tl([right[0]]), tb(True), tf(1.0)]
+            return right + [self.other_obj(ty["c"]), "N", ti(5), ts(b"x"), tl([]), tl([right[0]]), tb(True), tf(1.0), FOREIGN, (tl([right[0]]), "tuple")]
         raise ValueError(k)
 
     def array_cands(self, ty, full):
@@ -849,8 +906,31 @@ class Gen:
             out += [self.stored(e), "N", ti(3), ts(b"ab"), tyb(False, b"ab")]
         out.append(tl([tl([el()]), tl([el()])]))
         out.append(td(False, []))
-        if not full and len(out) > 28:
-            out = rng.sample(out, 28)
+        out.append(FOREIGN)
+        out.append(tl(padn([FOREIGN])))
+        # every sequence flavour at lengths around the capacity: tuples, str, and buffers / ndarrays of every dtype
+        # (ndarray, memoryview, array.array) with the capacity reached in ITEMS and in BYTES
+        for n in lens:
+            out.append((tl([el() for _ in range(n)]), "tuple"))
+            if not (e["k"] == "I" and not e["s"] and e["w"] <= 8):
+                out.append(ts(bytes(rng.choice(b"0123456789") for _ in range(n))))
+                out.append(ts(bytes(rng.choice(b"ghjklmopqrsuvwxz") for _ in range(n))))
+        sweep = []
+        flavours = [None, "mv", "arr"]
+        for di, d in enumerate(ALL_DT):
+            size = 1 if d == "b" else int(d[1:]) // 8
+            ns = sorted({cap, cap + 1, max(cap - 1, 0), cap // size, cap // size + 1, -(-cap // size), (cap + 1) // size})
+            for ni, n in enumerate(x for x in ns if x <= 300):
+                if d == "b":
+                    elems = [tb(rng.random() < 0.5) for _ in range(n)]
+                elif d[0] == "f":
+                    elems = [tf(float(rng.choice([0, 1]))) for _ in range(n)]
+                else:
+                    elems = [ti(rng.choice([0, 1])) for _ in range(n)]
+                sweep.append((ta(d, elems), flavours[(di + ni + rng.randrange(3)) % 3]))
+        out += sweep if full else rng.sample(sweep, min(len(sweep), 10))
+        if not full and len(out) > 40:
+            out = rng.sample(out, 40)
         return out
 
     def cands(self, ty, full=True):
@@ -1012,6 +1092,10 @@ def slots_of(t):
 # ------------------------------------------------------------------------------------------------------------
 # the check
 # ------------------------------------------------------------------------------------------------------------
+def plain(x):
+    return x[0] if isinstance(x, tuple) else x
+
+
 def model_outcome(ans):
     """driver answer -> (class, value tokens)."""
     if ans.startswith("ok "):
@@ -1060,7 +1144,12 @@ class NSCheck:
         for c in sch.data_classes():
             for fi, f in enumerate(c["fields"]):
                 for x in gen.cands(f["ty"], self.full):
+                    fl = None
+                    if isinstance(x, tuple):
+                        x, fl = x
                     case = {"k": "set", "c": c["id"], "f": fi, "x": x}
+                    if fl:
+                        case["fl"] = fl
                     if f["ty"]["k"] in ("I", "F", "B") and x.split()[0] in ("i", "f", "inf", "nan") and rng.random() < 0.15:
                         case["nps"] = True
                     cases.append(case)
@@ -1079,14 +1168,14 @@ class NSCheck:
                     picks = [] if mode == 0 else [i for i in range(nf) if rng.random() < (0.5 if mode == 1 else 1.0)]
                 for i in picks:
                     fty = c["fields"][i]["ty"]
-                    args[i] = gen.accepted_cand(fty) if rng.random() < 0.8 else rng.choice(gen.cands(fty, False))
+                    args[i] = gen.accepted_cand(fty) if rng.random() < 0.8 else plain(rng.choice(gen.cands(fty, False)))
                     if args[i] == "N":
                         args[i] = None
                 ops = []
                 for _ in range(rng.randint(0, self.ops_len)):
                     i = rng.randrange(nf)
                     fty = c["fields"][i]["ty"]
-                    ops.append([i, gen.accepted_cand(fty) if rng.random() < 0.65 else rng.choice(gen.cands(fty, False))])
+                    ops.append([i, gen.accepted_cand(fty) if rng.random() < 0.65 else plain(rng.choice(gen.cands(fty, False)))])
                 cases.append({"k": "ops", "c": c["id"], "a": args, "ops": ops, "rt": True})
             for r in range(self.n_rt):
                 cases.append({"k": "rt", "c": c["id"], "o": gen.stored({"k": "C", "c": c["id"]}, weak=r % 4 == 3)})
@@ -1103,6 +1192,9 @@ class NSCheck:
                 args = " ".join(a if a is not None else "N" for a in case["a"])
                 ops = " ".join(f"{i} {x}" for i, x in case["ops"])
                 lines.append(f"ops {sch.ctokens(case['c'])} {len(case['a'])} {args} {len(case['ops'])} {ops}")
+            elif case["k"] == "model":
+                c = sch.classes[case["c"]]
+                lines.append(f"import {len(sch.packages)} " + " ".join(sch.packages) + " " + ".".join(c["ns"]))
             else:
                 lines.append(None)
         return lines
@@ -1135,8 +1227,10 @@ class NSCheck:
         c = sch.classes[case["c"]]
         fty = c["fields"][case["f"]]["ty"]
         tree = parse(case["x"])
-        ctx.case(("set", sch.tokens(fty), case["x"]), True)
+        ctx.case(("set", sch.tokens(fty), case["x"], case.get("fl")), True)
         ctx.count("set:" + fty["k"] + ":" + r["r"])
+        if case.get("fl"):
+            ctx.count("flavour:" + case["fl"])
         # tie
         if ans is not None:
             mc, mv = model_outcome(ans)
@@ -1232,7 +1326,7 @@ class NSCheck:
             ans = answers.get(i)
             k = case["k"]
             if k == "model":
-                self.judge_model(case, r)
+                self.judge_model(case, r, ans)
             elif k == "set":
                 self.judge_set(case, r, ans)
             elif k == "ops":
@@ -1258,6 +1352,7 @@ class NSCheck:
             if mc != exp[0] or (mc == "ok" and mv != exp[1]):
                 ctx.disagree(kind, self.replay_of(case, {"request": req[:3000]}), ans[:400], {"r": exp[0], "v": exp[1][:400]})
         self.phase_ufb(mutate_src)
+        self.phase_alias()
 
     def judge_ops(self, case, r, ans, later, mutate_src):
         ctx, sch = self.ctx, self.sch
@@ -1314,12 +1409,19 @@ class NSCheck:
             if r["rt"].get("tb"):
                 mutate_src.append((case["c"], r["rt"]["tb"]))
 
-    def judge_model(self, case, r):
+    def judge_model(self, case, r, ans=None):
         ctx, sch = self.ctx, self.sch
         c = sch.classes[case["c"]]
         m = sch.models[case["c"]]
         ctx.case(("model", c["full"]), True)
         ctx.count("model-compared")
+        if any(x != y for x, y in zip(c["ns"], c["pkg"])):
+            ctx.count("class-in-stropped-namespace")
+        if ans is not None:
+            # tie of get_class's module walk: model over the generated package tree vs the tree itself and the class's module
+            ctx.traces += 1
+            if ans != ".".join(c["pkg"]) or (c["kind"] != "service" and r.get("module") != c["mod"]):
+                ctx.disagree("import", self.replay_of(case, {"packages": sch.packages}), ans, {"tree": ".".join(c["pkg"]), "module": r.get("module")})
         exp = describe_model(m)
         problems = []
         if r["model"] != exp:
@@ -1335,7 +1437,8 @@ class NSCheck:
             if r["extent_bytes"] * 8 != m.extent:
                 problems.append({"what": "_EXTENT_BYTES_", "embedded": r["extent_bytes"], "source_bits": m.extent})
             if r["get_class"] is not True:
-                problems.append({"what": "get_class(get_model(cls)) is not cls", "observed": r["get_class"]})
+                ctx.fail({"kind": "get-class"}, f"get_class(get_model({c['full']})) is not the class: {r['get_class']}",
+                         self.replay_of(case, {"observed": r["get_class"]}))
             if not r["get_model_instance_is"] or not r["is_serializable"]:
                 problems.append({"what": "get_model(instance) / is_serializable"})
             for k in m.constants:
@@ -1348,10 +1451,52 @@ class NSCheck:
                     e = ti(int(v))
                 if r["constants"].get(k.name) != e:
                     problems.append({"what": "constant " + k.name, "embedded": r["constants"].get(k.name), "source": e})
-        elif not r["is_service"]:
-            problems.append({"what": "is_service_type"})
+        else:
+            if not r["is_service"]:
+                problems.append({"what": "is_service_type"})
+            if r["get_class"] is not True:
+                ctx.fail({"kind": "get-class"}, f"get_class(get_model({c['full']})) is not the class: {r['get_class']}",
+                         self.replay_of(case, {"observed": r["get_class"]}))
         if problems:
             ctx.fail({"kind": "model-mismatch"}, problems[0]["what"], self.replay_of(case, {"problems": problems}))
+
+    # ---- package-level aliases Name_M ---------------------------------------------------------------------------
+    def phase_alias(self):
+        ctx, sch = self.ctx, self.sch
+        groups = {}
+        for c in sch.classes:
+            if "parent" in c:
+                continue
+            m = sch.models[c["id"]]
+            groups.setdefault(tuple(c["pkg"]), []).append((m.short_name, int(m.version.major), int(m.version.minor)))
+        cases, expect = [], []
+        for pkg, tys in sorted(groups.items()):
+            exp = {}
+            for n, ma, mi in tys:
+                exp[f"{n}_{ma}"] = max(exp.get(f"{n}_{ma}", -1), mi)   # the property: the NEWEST (integer) minor
+            cases.append({"k": "alias", "mod": ".".join(pkg), "aliases": sorted(exp)})
+            expect.append((tys, exp))
+        results, _ = self.ns.run_worker(ctx, self.npdir, cases, "alias")
+        lines = ["aliases %d %s" % (len(tys), " ".join(f"{n} {ma} {mi}" for n, ma, mi in tys)) for tys, _ in expect]
+        for case, (tys, exp), r, ans in zip(cases, expect, results, self.ask(lines)):
+            if "harness_error" in r:
+                raise RuntimeError(f"worker error on {case}: {r['harness_error']}\n{r.get('tb')}")
+            ctx.case(("alias", case["mod"], tuple(sorted(tys))), len(tys) > len(exp))
+            ctx.count("alias-packages")
+            got = {a: (v["minor"] if v else None) for a, v in r["aliases"].items()}
+            if ans is not None:
+                ctx.traces += 1
+                toks = [] if ans == "-" else ans.split()
+                model = {f"{toks[i]}_{toks[i + 1]}": int(toks[i + 2]) for i in range(0, len(toks), 3)}
+                if model != got:
+                    ctx.disagree("aliases", {"namespace": self.ns.label, "files": self.ns.texts, "case": case}, model, got)
+            for a, mi in sorted(exp.items()):
+                v = r["aliases"].get(a)
+                ctx.count("aliases-checked")
+                if v is None or v["minor"] != mi or not v["same_as_versioned"] or f"{v['cls']}" != f"{a}_{mi}":
+                    ctx.fail({"kind": "alias-not-newest-minor"},
+                             f"package alias {case['mod']}.{a} does not refer to the newest minor version {a}_{mi}: {v}",
+                             {"namespace": self.ns.label, "files": self.ns.texts, "case": case, "expected": exp, "observed": r["aliases"]})
 
     # ---- update_from_builtin with arbitrary dict sources -------------------------------------------------------
     def mutate(self, ty, t, depth=0):
@@ -1477,7 +1622,9 @@ def snan_probe(chk):
 
 
 def run(ctx):
-    drivers = ctx.prove(["C18"], exes=["pyobj"])
+    # C18_* theorems of the Python refinement layer (decoded values pass the generated setters / fit their dtype)
+    _refine = ["C01RefinePy"] if (common.LEAN / "NunavutVerif" / "Properties" / "C01RefinePy.lean").exists() else []
+    drivers = ctx.prove(["C18"] + _refine, exes=["pyobj"], name_filter=(lambda n: n.startswith("C18_")) if _refine else None)
     drv = drivers.get("pyobj")
     ctx.rule = ("per generated class and field: the full boundary candidate list (corpus namespace) or a seeded sample of it (random namespaces): "
                 "min, max, +-1, far out, floats/NaN/inf into int fields, ints beyond 2^1024 into float fields, None, str, bytes, lists, ndarrays of the "
@@ -1546,6 +1693,11 @@ def replay(ctx, path):
         chk.judge_rt(case, case["o"], res[0]["rt"], "rt")
     elif k == "model":
         chk.judge_model(case, res[0])
+    elif k == "alias":
+        for a, mi in rp.get("expected", {}).items():
+            v = res[0]["aliases"].get(a)
+            if v is None or v["minor"] != mi:
+                ctx.fail({"kind": "alias-not-newest-minor"}, f"{a} -> {v}", {})
     elif k == "snan":
         if res[0]["rt"].get("ser_rt") != res[0]["rt"]["ser_o"]:
             ctx.fail({"kind": "builtin-roundtrip"}, "bytes differ", {})
